@@ -149,3 +149,35 @@ Proof.
   cbv zeta. rewrite E. split; [reflexivity|]. split; [|simpl; auto].
   intros x [<-|[]]; simpl; auto.
 Qed.
+
+(** * Code-level theorems on the faithful model of [Visitor.Visit] (Model/Visit.v, tied by tools/props/travlib.py) *)
+From Argot Require Model.Visit Proofs.VisitBase Proofs.VisitStop Proofs.VisitEntries.
+From Coq Require NArith.
+
+(** max-alarms = k > 0 on ONE visit: the limited run reports a suffix-closed subset of the unlimited run's sink visits
+    (the first ones), at most k - a0 of them, and at least one whenever the unlimited run reports any.  The counter
+    counts sink VISITS, as [IncrementAndTestAlarms] does. *)
+Theorem visit_alarm_limit : forall (g : Visit.graph) (P : Visit.preds) (cfg : Visit.config) (ord : VisitBase.oracle)
+    (src : Visit.id) (k a0 : BinNums.N) (fuel : nat) (t : list Visit.id) (stu : Visit.state),
+  BinNat.N.lt BinNums.N0 k -> BinNat.N.lt a0 k ->
+  Visit.visit g P (VisitStop.with_alarms cfg BinNums.N0) ord src fuel t a0 = Visit.Done stu ->
+  exists stk : Visit.state,
+    (Visit.visit g P (VisitStop.with_alarms cfg k) ord src fuel t a0 = Visit.Done stk \/
+     Visit.visit g P (VisitStop.with_alarms cfg k) ord src fuel t a0 = Visit.AlarmStop stk) /\
+    (exists later : list Visit.vnode, Visit.st_hits stu = (later ++ Visit.st_hits stk)%list) /\
+    BinNat.N.le (BinNat.N.of_nat (length (Visit.st_hits stk))) (BinNat.N.sub k a0) /\
+    (Visit.st_hits stu <> nil -> Visit.st_hits stk <> nil).
+Proof. exact VisitStop.alarm_limit_lemma. Qed.
+
+(** the same over the entry-point loop with its shared counter, for any order of the entry points *)
+Theorem visit_alarm_limit_entries : forall (g : Visit.graph) (P : Visit.preds) (cfg : Visit.config)
+    (ord : VisitBase.oracle) (fuel : nat) (k : BinNums.N) (es : list (Visit.id * list Visit.id)),
+  BinNat.N.lt BinNums.N0 k ->
+  (forall (src : Visit.id) (t : list Visit.id) (b : BinNums.N), List.In (src, t) es ->
+     exists st : Visit.state, Visit.visit g P (VisitStop.with_alarms cfg BinNums.N0) ord src fuel t b = Visit.Done st) ->
+  List.incl (VisitEntries.visit_entries g P cfg ord fuel k es BinNums.N0)
+            (VisitEntries.visit_entries g P cfg ord fuel BinNums.N0 es BinNums.N0) /\
+  BinNat.N.le (BinNat.N.of_nat (length (VisitEntries.visit_entries g P cfg ord fuel k es BinNums.N0))) k /\
+  (VisitEntries.visit_entries g P cfg ord fuel BinNums.N0 es BinNums.N0 <> nil ->
+   VisitEntries.visit_entries g P cfg ord fuel k es BinNums.N0 <> nil).
+Proof. exact VisitEntries.alarm_limit_entries_lemma. Qed.
